@@ -32,7 +32,7 @@ _MOCK_RULES = [
 ]
 
 _C02_RULES = _MOCK_RULES + [
-    [r"c023Lay5owner", 4], [r"c023Lay8max_last", 4], [r"c023Lay12range_mapped", 4], [r"c028real_map", 5], [r"c028mock_map", 4],
+    [r"c023Lay5owner", 4], [r"c023Lay8max_last", 4], [r"c023Lay12range_mapped", 4], [r"c028real_map", 5], [r"c028mock_map", 4], [r"c0210one_region", 4],
     [r"binary_search_by", 4], [r"16from_arc_regions", 4], [r"GuestMemoryMmap.*4iter", 5], [r"4fold", 5], [r"Windows", 4],
 ]
 
@@ -202,7 +202,7 @@ PROPS["C03"] = {
 
 PROPS["C02"] = {
     "groups": [
-        {"crate": "std", "quick": ["c02::real1", "c02::real2", "c02::mock1", "c02::mock2"], "thorough": ["c02::real3", "c02::mock3"],
+        {"crate": "std", "quick": ["c02::real1", "c02::real2", "c02::mock1", "c02::mock2", "c02::region_"], "thorough": ["c02::real3", "c02::mock3"],
          "jobs": 8, "mem_gb": 10, "timeout_s": 1200, "timeout_thorough_s": 3600, "stubbed": True,
          "unwindset": {"default": 4, "rules": _C02_RULES}},
     ],
